@@ -13,6 +13,9 @@ git -C "$WT" apply "$PATCH" || { echo "patch does not apply: $PATCH"; exit 2; }
 if [ "${MUTANT_TESTS:-0}" = 1 ]; then
   (cd "$WT" && GOFLAGS=-mod=mod GOPROXY=off GOSUMDB=off go test -vet=off -count=1 ./... 2>&1 | grep -v "^ok\|no test files" | head -20)
 fi
+# the run against the changed tree must not replace the evidence of the unchanged tree
+EV=/verif/evidence/${ID%U}.json; [ -f $EV ] && cp $EV $EV.keep
 out=$(cd /verif && VERIF_REPO="$WT" ./check "$ID" "$TIER" 2>&1); rc=$?
+[ -f $EV.keep ] && mv $EV.keep $EV
 echo "$out" | grep -E "VIOLATION|KNOWN-FINDING|INFRA|OK property|FAIL" | head -6
 if [ $rc -eq 1 ] && echo "$out" | grep -q "^VIOLATION property=${ID%U}"; then echo "CAUGHT $(basename $PATCH) by $ID"; else echo "MISSED $(basename $PATCH) by $ID (rc=$rc)"; fi
